@@ -1,6 +1,7 @@
 package rt
 
 import (
+	"regexp"
 	"fmt"
 	"html"
 	"sort"
@@ -483,6 +484,41 @@ func IntentKnownAttrsSep(f *gen.File, name string, e Env) (string, string, bool)
 
 func Intent(f *gen.File, name string, e Env) (string, string, bool) {
 	return intentOpt(f, name, e, false)
+}
+
+var nukeRe = regexp.MustCompile(`~☢<\s*|\s*>☢~`)
+
+// IntentKnownSentinel: what the template denotes EXCEPT for the recorded finding sentinel-in-content (white
+// space removal is a textual pass over the finished buffer, so content that contains the marker sequences is
+// eaten with them): the document with its markers written out, then the eraser's own regular expression.
+// attrsSep adds the other recorded finding. A render that equals this is explained by the recorded findings alone.
+func IntentKnownSentinel(f *gen.File, name string, e Env, attrsSep bool) (string, string, bool) {
+	it := &intent{f: f, e: e, noAttrsSep: attrsSep}
+	for _, t := range f.Templates {
+		if t.Name == name {
+			it.own = []*closure{nil}
+			ok := it.block(t.Body)
+			if it.Err != "" {
+				return "", it.Err, true
+			}
+			if !ok {
+				return "", "", false
+			}
+			var sb strings.Builder
+			for _, p := range it.out {
+				switch {
+				case p.trimLeft:
+					sb.WriteString(">☢~")
+				case p.trimRight:
+					sb.WriteString("~☢<")
+				default:
+					sb.WriteString(p.lit)
+				}
+			}
+			return nukeRe.ReplaceAllString(sb.String(), ""), "", true
+		}
+	}
+	return "", "", false
 }
 
 func intentOpt(f *gen.File, name string, e Env, noAttrsSep bool) (string, string, bool) {
